@@ -139,6 +139,7 @@ SCENARIO_BY_OBLIGATION = {
     ("C03", "O3.1/pinned"): ["failed-overwrite", "nan"],
     ("C12", "O12.4/prune_dependencies"): ["prune-breaks-chain"],
     ("C12", "O12.5/incremental_snapshot"): ["incremental-after-snapshot"],
+    ("C12", "O12.6/pitr_selection"): ["pitr-siblings"],
     ("C02", "O2.5/unchecked_cosine_d1"): ["zero-after-normalize"],
     ("C02", "O2.5/overflow_cosine_d2"): ["zero-after-normalize"],
     ("C15", "O15.4/engine_refusal"): ["failed-overwrite", "inf"],
